@@ -300,6 +300,17 @@ def comment_before_argument():
 """
 
 
+COMMENT_IN_UNRENDERED_ARG = r"""
+def comment_in_unrendered_argument():
+    # a comment inside an argument that the macro's replacement text does not use (the short title of \\section, the index of \\sqrt)
+    for doc in ("\\section[o % CMTX\n]{t}", "\\sqrt[3 % CMTX\n]{2}"):
+        out = LatexNodes2Text(keep_comments=True).latex_to_text(doc)
+        if "CMTX" not in out:
+            return "keep_comments=True: the comment of %r is missing from the output %r" % (doc, out)
+    return None
+"""
+
+
 def _strings(model):
     out = []
     for k, v in sorted(model.items()):
@@ -318,6 +329,9 @@ def replay_for(pid):
         if o.get('unit') == 'LatexExpressionParser.parse' or 'LatexExpressionParser.parse:' in o.get('name', ''):
             return (NATIVE + COMMENT_BEFORE_ARG + 'm = comment_before_argument()\n'
                     'if m: reproduced(m, "comment-between-a-macro-and-its-argument")\nnot_reproduced()\n')
+        if 'a-replacement-string-renders-every-argument' in o.get('name', ''):
+            return (NATIVE + COMMENT_IN_UNRENDERED_ARG + 'm = comment_in_unrendered_argument()\n'
+                    'if m: reproduced(m, "comment-inside-an-argument-the-replacement-does-not-render")\nnot_reproduced()\n')
         for call in order:
             body += 'm = %s\nif m: reproduced(m)\n' % call
         return NATIVE + body + 'not_reproduced()\n'
